@@ -179,6 +179,52 @@ def test_pts(inp):
     return None
 
 
+def gen_shared(tier, seed):
+    yield {'spec': {'conv': 'cf1d', 'ny': 6, 'nx': 7}}
+    yield {'spec': {'conv': 'cf2d', 'ny': 5, 'nx': 6, 'bounds': 'vars'}}
+    yield {'spec': {'conv': 'ugrid', 'ny': 4, 'nx': 5, 'split': [[1, 1], [2, 3]]}}
+
+
+def test_shared(inp):
+    """Points exactly on edges and vertices shared by several cells: every API that takes points picks the lowest-numbered cell."""
+    ds = datasets.build(inp['spec'])
+    ems = ds.ems
+    with warnings.catch_warnings():
+        warnings.simplefilter('ignore')
+        polys = ems.polygons
+    present = [n for n, p in enumerate(polys) if p is not None]
+    pts = []
+    seen = set()
+    for n in present:
+        ring = list(polys[n].exterior.coords)
+        for a, b in zip(ring, ring[1:]):
+            for xy in (a, ((a[0] + b[0]) / 2, (a[1] + b[1]) / 2)):
+                if xy not in seen:
+                    seen.add(xy)
+                    pts.append(shapely.Point(xy))
+    expect, kept_pts = [], []
+    for p in pts:
+        hits = [n for n in present if polys[n].intersects(p)]
+        if hits:            # a midpoint computed in floating point may fall a hair off a slanted edge: then it is simply not a request
+            expect.append(min(hits))
+            kept_pts.append(p)
+    pts = kept_pts
+    shape = datasets.expected_grids(inp['spec'])['face']
+    size = int(numpy.prod(shape))
+    fdims = list(ems.grid_dimensions[ems.default_grid_kind])
+    marker = xarray.DataArray(numpy.arange(size, dtype=float).reshape(shape), dims=fdims)
+    d2 = ds.assign(cell_number=marker)
+    for api in ('select_points', 'extract_points'):
+        res = must(lambda: d2.ems.select_points(pts, point_dimension='station') if api == 'select_points' else
+                   point_extraction.extract_points(d2, pts, point_dimension='station'), api)
+        got = [int(x) for x in res['cell_number'].values]
+        bad = [k for k, (g, w) in enumerate(zip(got, expect)) if g != w]
+        if bad:
+            k = bad[0]
+            return f'{api}: point {pts[k].wkt} on a shared boundary got the values of cell {got[k]}, the lowest-numbered cell it touches is {expect[k]} ({len(bad)} of {len(pts)} points)'
+    return None
+
+
 def key_pts(inp, detail):
     if inp['policy'] == 'drop' and all(p == 'miss' for p in inp['pattern']) and 'Need at least one index' in detail:
         return 'points:drop-all-miss'
@@ -247,6 +293,9 @@ CHECKS = [
           bound='5 lists per grid kind'),
     Check('points', gen_pts, test_pts, key=key_pts,
           space='5 datasets x 7 hit / boundary / miss patterns x {error, drop} through select_points and extract_points', bound='70 cases'),
+    Check('shared_boundaries', gen_shared, test_shared, key=lambda i, d: f"shared:{i['spec']['conv']}",
+          space='3 datasets (42, 30 and ~22 cells): every vertex and every edge midpoint of every cell as a request point through select_points and extract_points',
+          bound='all vertices and edge midpoints of 3 datasets'),
     Check('dataframe', gen_df, test_df, key=key_df,
           space='4 datasets x {error, drop, fill} x table index {0..n-1, shifted, permuted} x 2 hit/miss patterns', bound='72 cases'),
 ]
